@@ -31,6 +31,8 @@ class GeneratorDriver:
     def cleanup(self):
         self.gen = None
 
+    uniform_done = set()
+
     def reset(self, st):
         self.st0 = st
         self.earth = ScriptedEarth()
@@ -65,6 +67,26 @@ class GeneratorDriver:
             if self.gen.count != last['count']:
                 raise Divergence('generator.count', last['count'], self.gen.count)
             p = list(ev)[0]
+            # uniform in the volume (once per generator class and driver): 4096 seeded vertices, occupancy of the eight equal-volume
+            # cells (halves of r^2 / x, of azimuth / y, of z) within 6 sigma of 512 -- a statement about the distribution, not about
+            # how it is sampled
+            cls_name = type(self.gen).__name__
+            if cls_name not in self.uniform_done:
+                self.uniform_done.add(cls_name)
+                state = np.random.get_state()
+                np.random.seed(20260927)
+                vs = np.array([self.gen.get_vertex() for _ in range(4096)], dtype=float)
+                np.random.set_state(state)
+                if isinstance(self.gen, CylindricalGenerator):
+                    f = [(vs[:, 0] ** 2 + vs[:, 1] ** 2) / self.gen.dr ** 2, (np.arctan2(vs[:, 1], vs[:, 0]) % (2 * np.pi)) / (2 * np.pi), -vs[:, 2] / self.gen.dz]
+                else:
+                    f = [(vs[:, 0] + self.gen.dx / 2) / self.gen.dx, (vs[:, 1] + self.gen.dy / 2) / self.gen.dy, -vs[:, 2] / self.gen.dz]
+                if not all(np.all((u >= 0) & (u <= 1)) for u in f):
+                    raise Divergence('%s vertices' % cls_name, 'inside the declared volume', 'some outside')
+                cell = (f[0] >= 0.5).astype(int) * 4 + (f[1] >= 0.5).astype(int) * 2 + (f[2] >= 0.5).astype(int)
+                occ = np.bincount(cell, minlength=8)
+                if not np.all(np.abs(occ - 512) <= 6 * np.sqrt(4096 * 0.125 * 0.875)):
+                    raise Divergence('%s: occupancy of the eight equal-volume cells by 4096 vertices' % cls_name, '512 +- 127 each', occ.tolist())
             if self.energy_calls != last['count']:
                 raise Divergence('energies drawn from the source (one per throw)', last['count'], self.energy_calls)
             if p.energy != 1e9 + last['count']:
